@@ -42,6 +42,6 @@ RefusedLeavesFile == [][lastRaised' => file' = file]_vars
 RefusedOnlyWhenIncompatible ==
   [][(Last'.op = "write" /\ Last'.ap /\ ~Last'.ow /\ ~IsAbsent(file))
        => /\ (Compatible(file, MkTable(Last'.shape, nextId)) => ~lastRaised')
-          /\ ((~Compatible(file, MkTable(Last'.shape, nextId)) /\ ~Ambiguous(file, MkTable(Last'.shape, nextId))) => lastRaised')]_vars
+          /\ (~Compatible(file, MkTable(Last'.shape, nextId)) => lastRaised')]_vars
 NeverEmptyOnceWritten == (~IsAbsent(file)) => Len(file.ids) >= 1
 =============================================================================
